@@ -44,6 +44,15 @@ CORO = [H("coro", "coro_script", args=list(a)) for a in ((0, 0, 0), (0, 1, 0), (
 CHECKS = {
     "C19": {"harnesses": C19_HARNESSES},
     "C10": {"harnesses": CORO},
+    "C11": {
+        "harnesses": [
+            H("traits", "traits_corpus"),
+            H("expr", "expr_ctx", args=[6]), H("expr", "expr_ctx", args=[7]),
+            H("events", "evt_v1_ctx", 3, 4), H("events", "evt_v2_ctx", 3, 4), H("mutexh", "mtx_v2_loop", 3, 4),
+            H("coro", "coro_script", args=[0, 1, 0]), H("coro", "coro_script", args=[0, 1, 1]), H("coro", "coro_script", args=[1, 1, 0]),
+            H("coro", "coro_script", args=[1, 1, 1], thorough_only=True),
+        ],
+    },
     "C18": {
         "harnesses": [
             H("anyw", "any_storage"),
